@@ -191,3 +191,134 @@ theorem round_runsOk (K : ConnOps κ) (routes : List (Route κ)) (fuel : Nat) (r
           · exact hp
 
 end L4
+
+namespace L4
+variable {κ : Type}
+
+def outTrace : PassOut κ → List (Ev κ)
+  | .done _ _ tr => tr
+  | .stop tr _ => tr
+
+/-- the trace of a pass extends the trace it was given -/
+theorem pass_extends (K : ConnOps κ) (rest : List (Route κ)) (i : Nat) (rs : RS) (cx : κ) (tr : List (Ev κ)) :
+    ∃ ext, outTrace (pass K rest i rs cx tr) = tr ++ ext := by
+  induction rest generalizing i rs cx tr with
+  | nil => exact ⟨[], by simp [pass, outTrace]⟩
+  | cons r rest ih =>
+    unfold pass
+    split
+    · exact ih _ _ _ _
+    · split
+      · exact ih _ _ _ _
+      · split
+        · split
+          · exact ⟨[], by simp [outTrace]⟩
+          · exact ih _ _ _ _
+        · exact ih _ _ _ _
+        · simp only []
+          split
+          · exact ⟨_, by simp only [outTrace, List.append_assoc]; rfl⟩
+          · exact ⟨_, by simp only [outTrace, List.append_assoc]; rfl⟩
+          · rename_i hev cx' _
+            obtain ⟨ext, he⟩ := ih (i + 1) { rs.set i .matched with lm := i + 1, lnm := i + 1 } cx'
+              (tr ++ [.run i (K.arm false cx)] ++ List.map (Ev.inner i) hev)
+            exact ⟨_, by rw [he]; simp only [List.append_assoc]; rfl⟩
+        · exact ⟨_, by simp only [outTrace]; rfl⟩
+
+/-- **The first matching route runs.**  Start a pass at route `i` with the connection `cx`.  If the routes `i … i+n−1` are each
+passed over for a reason the router accepts — already behind the last matched route, or their matcher sets answer `no` on `cx`,
+or answer "need more" in a round in which a prefetch has been requested — and route `i+n` is not behind the last matched route,
+is not cached as "not matched", and its matcher sets answer `yes` on `cx`, then the handlers of route `i+n` are invoked on `cx`
+(deadline cleared) in this pass: a route that matches is never passed over for a later one, and it is the first such route. -/
+theorem pass_runs_first_match (K : ConnOps κ) (skipped : List (Route κ)) (r : Route κ) (rest : List (Route κ))
+    (i : Nat) (rs : RS) (cx : κ) (tr : List (Ev κ))
+    (hskip : ∀ k (hk : k < skipped.length),
+      i + k + 1 ≤ rs.lm ∨ anyMatch skipped[k].sets cx = .no ∨ (anyMatch skipped[k].sets cx = .more ∧ rs.needMore = true))
+    (hlm : ¬ i + skipped.length + 1 ≤ rs.lm)
+    (hcache : ¬ (rs.status (i + skipped.length) = some .notMatched ∧ i + skipped.length + 1 ≤ rs.lnm))
+    (hyes : anyMatch r.sets cx = .yes) :
+    Ev.run (i + skipped.length) (K.arm false cx) ∈ outTrace (pass K (skipped ++ r :: rest) i rs cx tr) := by
+  induction skipped generalizing i rs with
+  | nil =>
+    simp only [List.length_nil, Nat.add_zero, List.nil_append] at *
+    unfold pass
+    rw [if_neg hlm, if_neg hcache, hyes]
+    simp only []
+    split
+    · simp [outTrace]
+    · simp [outTrace]
+    · rename_i hev cx' _
+      obtain ⟨ext, he⟩ := pass_extends K rest (i + 1) { rs.set i .matched with lm := i + 1, lnm := i + 1 } cx'
+        (tr ++ [.run i (K.arm false cx)] ++ List.map (Ev.inner i) hev)
+      rw [he]; simp
+  | cons s ss ih =>
+    have h0 := hskip 0 (by simp)
+    simp only [List.getElem_cons_zero, Nat.add_zero] at h0
+    have hnext : ∀ (rs' : RS), rs'.lm = rs.lm → rs'.needMore = rs.needMore →
+        (∀ j, j > i → rs'.status j = rs.status j) → (rs'.lnm = rs.lnm ∨ rs'.lnm ≤ i + 1) →
+        Ev.run (i + (s :: ss).length) (K.arm false cx) ∈ outTrace (pass K (ss ++ r :: rest) (i + 1) rs' cx tr) := by
+      intro rs' h1 h2 h3 h4
+      have := ih (i + 1) rs'
+        (by intro k hk
+            have := hskip (k + 1) (by simp; omega)
+            simp only [List.getElem_cons_succ] at this
+            rw [h1, h2]; rw [show i + 1 + k + 1 = i + (k + 1) + 1 by omega]; exact this)
+        (by rw [h1]; simp only [List.length_cons] at hlm; omega)
+        (by intro hc
+            apply hcache
+            simp only [List.length_cons] at *
+            have hs := h3 (i + 1 + ss.length) (by omega)
+            rw [show i + (ss.length + 1) = i + 1 + ss.length by omega]
+            refine ⟨by rw [← hs]; exact hc.1, ?_⟩
+            rcases h4 with h4 | h4
+            · rw [← h4]; omega
+            · omega)
+      simp only [List.length_cons]
+      rw [show i + (ss.length + 1) = i + 1 + ss.length by omega]
+      exact this
+    simp only [List.cons_append]
+    unfold pass
+    by_cases c1 : i + 1 ≤ rs.lm
+    · rw [if_pos c1]; exact hnext rs rfl rfl (fun _ _ => rfl) (Or.inl rfl)
+    · rw [if_neg c1]
+      by_cases c2 : rs.status i = some .notMatched ∧ i + 1 ≤ rs.lnm
+      · rw [if_pos c2]; exact hnext rs rfl rfl (fun _ _ => rfl) (Or.inl rfl)
+      · rw [if_neg c2]
+        rcases h0 with h0 | h0 | h0
+        · exact absurd h0 c1
+        · rw [h0]
+          exact hnext (rs.set i .notMatched) rfl rfl (by intro j hj; simp [RS.set]; omega) (Or.inl rfl)
+        · rw [h0.1]
+          simp only [h0.2, Bool.not_true, Bool.false_eq_true, ↓reduceIte]
+          exact hnext { rs.set i .needsMore with lnm := i + 1 } rfl rfl (by intro j hj; simp [RS.set]; omega) (Or.inr (Nat.le_refl _))
+
+end L4
+
+namespace L4
+variable {κ : Type}
+
+theorem round_extends (K : ConnOps κ) (routes : List (Route κ)) (fuel : Nat) (rs : RS) (cx : κ) (tr : List (Ev κ)) :
+    ∃ ext, (round K routes fuel rs cx tr).1 = tr ++ ext := by
+  induction fuel generalizing rs cx tr with
+  | zero => exact ⟨_, rfl⟩
+  | succ f ih =>
+    unfold round
+    simp only []
+    split
+    · exact ⟨_, rfl⟩
+    · rename_i cx1 _
+      obtain ⟨e1, h1⟩ := pass_extends K routes 0 rs cx1 tr
+      cases hq : pass K routes 0 rs cx1 tr with
+      | stop tr' r => rw [hq] at h1; exact ⟨e1, h1⟩
+      | done rs' cx' tr' =>
+        rw [hq] at h1
+        simp only [outTrace] at h1
+        simp only []
+        split
+        · exact ⟨e1, h1⟩
+        · split
+          · obtain ⟨e2, h2⟩ := ih { rs' with needMore := true } cx' tr'
+            exact ⟨e1 ++ e2, by rw [h2, h1, List.append_assoc]⟩
+          · exact ⟨e1, h1⟩
+
+end L4
